@@ -9,9 +9,10 @@
  *       chunk = bytes per read of the socket (0 = as many as fit); wk = number of the socket write that
  *       fails (0 = none); endmode = what a read past the end of the stream returns (0: 0/EOF, 1: -1/timeout;
  *       also used for the failing write); wlabel = which write that was (none|helo|mail|rcpt<i>|data|body|final|quit):
- *       the command writes are named by their bytes; body/final is the value of the client's own flagcritical at
- *       that write - an input of the MODEL only (it has no buffering); the ORACLE decides from wtry and wire whether
- *       the write carried the end of the message; wtry = the bytes of the write that failed ('-' if none);
+ *       every write is named by its bytes only ("body" = any write of blast(); the harness never prints "final" and does
+ *       not look at the client's flagcritical): the driver decides from wtry and wire whether the write came after
+ *       `flagcritical = 1` (model input) and whether it carried the end of the message (oracle);
+ *       wtry = the bytes of the write that failed ('-' if none);
  *       out = qmail-remote's standard output; wire = bytes the server received; exit = exit status;
  *       relay = report(0, out) of qmail-rspawn.c
  *   R <wstat> <out> <relay>
@@ -85,7 +86,7 @@ ssize_t timeoutwrite(int t, int fd, const void *buf, size_t len) {
     else lab = "unknown";
   } else {
     if (len == 6 && !memcmp(b, "QUIT\r\n", 6)) lab = "quit";
-    else lab = flagcritical ? "final" : "body";
+    else lab = "body";   /* some flush of blast(); which one is decided by the driver from the bytes (wtry, wire) */
   }
   if (wcall == wfailat) {
     strcpy(wlabel, lab); hbuf_reset(&wtry); hbuf_add(&wtry, buf, len);
